@@ -124,6 +124,18 @@ CHECKS = {
         design_ref='DESIGN.md §2 C18; notes/C18.md',
         note='Trusted: the reference contact filter. One molecule per system (GoPipeline always merges first).',
         technique='Hypothesis generated inputs with threshold construction vs. reference model (two-directional set comparison)'),
+    'C14': dict(
+        category='exploration',
+        text=('Toy force fields (residue templates with unique atom names, 2-5 modifications grown to include sub-patterns of one '
+              'another, shared anchors, two-residue spans, replace attributes incl. renames) are written as .ff text and parsed by '
+              'read_ff; molecules of 1-5 residues get ground-truth attachments plus, in ~40 %, one perturbation (unexplained atom, '
+              'extra bond, wrong element, missing atom). Flags are set directly or by the real RepairGraph. After '
+              'CanonicalizeModifications an own induced-subgraph matcher and exact-cover search must find a cover consistent with the '
+              'resulting names, replace changes and residue labels; only flagged atoms may vanish, and a warning is logged iff '
+              'something was removed; unperturbed ordinary shapes must be identified completely.'),
+        design_ref='DESIGN.md §2 C14, §7; notes/C14.md',
+        note='Trusted: the reference matcher / exact-cover search. At most 6 flagged atoms per case (the implementation search is factorial on unidentifiable groups). Two structural shapes and rename-ambiguous covers are counted, not judged (statement allows removal with warning).',
+        technique='Hypothesis generated force fields and molecules with known ground truth; validity predicate via independent exact-cover search'),
 }
 
 NOT_YET = 'check not built yet in this round (planned, see DESIGN.md §2)'
